@@ -214,6 +214,38 @@ def part_b(rep, hbin, tier, seed, cov):
     return 1, (1 if ok else 0)
 
 
+RT_REPLAY_KIND = {"miniscript/bare": "ms-bare", "miniscript/legacy": "ms-legacy", "miniscript/segwitv0": "ms-segwit",
+                  "miniscript/tap": "ms-tap"}
+
+
+def part_c(rep, hbin, tier, seed, cov):
+    """Differential round trips on the real printers/parsers (not modelled in Coq)."""
+    p = _run_engine(hbin, ["rt", str(seed), tier], tier)
+    kinds = {}
+    for m in re.finditer(r"^RT kind=(\S+) generated=(\d+) accepted=(\d+)$", p.stdout, flags=re.M):
+        kinds[m.group(1)] = {"generated": int(m.group(2)), "accepted_by_parser_and_round_tripped": int(m.group(3))}
+    hist = {}
+    for m in re.finditer(r"^HIST (\S+) (\d+)$", p.stdout, flags=re.M):
+        fam, _, key = m.group(1).partition("/")
+        hist.setdefault(fam, {})[key] = int(m.group(2))
+    cov["round_trips"] = {"objects_per_kind": kinds,
+                          "miniscript_fragment_histogram": hist.get("ms-frag", {}),
+                          "miniscript_text_length_hist(50s)": hist.get("ms-len", {}),
+                          "descriptor_text_length_hist(100s)": hist.get("desc-len", {}),
+                          "key_forms": hist.get("key-form", {}),
+                          "descriptor_parser_reject_classes": hist.get("desc-reject", {}),
+                          "wallet_policy_key_shapes": hist.get("wallet-policy-keys", {})}
+    cov.setdefault("samples", []).extend(re.findall(r"^SAMPLE (.*)$", p.stdout, flags=re.M)[:10])
+    n = 0
+    for m in re.finditer(r"^FAIL key=(\S+) what=(.*?) input=(.*)$", p.stdout, flags=re.M):
+        key, what, inp = m.groups()
+        n += 1
+        rep.violation(key, "%s :: %s" % (what[:600], inp[:600]),
+                      {"property": PID, "part": "round-trip", "key": key, "what": what, "input": inp}, True)
+    total = sum(k["generated"] for k in kinds.values())
+    return total, n
+
+
 def replay_file(rep, hbin, tier, path):
     """--replay: re-run the recorded input against the current tree."""
     obj = json.load(open(path))
@@ -247,12 +279,13 @@ def run(rep, tier, seed, replay):
     o, d = part_b(rep, hbin, tier, seed, cov)
     obligations += o
     discharged += d
+    rt_total, rt_fail = part_c(rep, hbin, tier, seed, cov)
     camp = cov.get("substitution_campaign", {})
     tab = cov.get("checksum_tables", {})
     evaluations = (tab.get("single_chars", 0) + tab.get("two_char_strings", 0) + tab.get("random_strings", 0) + tab.get("verify_cases", 0)
                    + camp.get("single_substitutions_all_positions_x_all_characters", 0) + camp.get("double_substitutions", 0)
                    + camp.get("in_group0_3or4_substitutions", 0) + camp.get("collision_sweep_checksums", 0)
-                   + cov.get("expression_tree", {}).get("cases", 0))
+                   + cov.get("expression_tree", {}).get("cases", 0) + rt_total)
     rep.coverage.update(cov)
     rep.coverage.update({
         "obligations": obligations, "discharged": discharged,
@@ -263,8 +296,15 @@ def run(rep, tier, seed, replay):
         "evaluations": evaluations, "distinct_nontrivial": evaluations,
         "rule": "checksum: engine on all 95 single characters, all 9025 two-character strings, seeded random strings and "
                 "verify_checksum cases, compared with the model in Coq; every 1-substitution (position x character) and sampled "
-                "2-/in-group 3-4-substitutions of checksummed descriptors of 9 lengths against Descriptor::from_str; collision sweep",
+                "2-/in-group 3-4-substitutions of checksummed descriptors of 12 lengths against Descriptor::from_str; collision sweep; "
+                "expression-tree parser on every string over {a ( ) { } ,} up to length 5 (6 thorough) plus generated/edited/deep/wide strings, "
+                "compared with the model in Coq; print/parse/print of generated miniscripts (4 contexts, every alias spelling), descriptors, "
+                "keys, policies, wallet policies with an independent structural dump",
     })
+    rep.coverage["levels"] = {"checksum (Part A)": "proof + complete table tie + substitution campaign",
+                              "expression tree (Part B)": "proof (see notes/C10.md for what is proved) + tie in Coq",
+                              "printers/parsers of miniscript, descriptor, key, policy, wallet policy (Part C)":
+                                  "correspondence/oracle only: differential round trips on the real code, not modelled in Coq"}
     rep.assumptions = [
         "ChecksumModel.v transcribes checksum.rs and the bech32 engine it instantiates (tied on every run by the complete 1-/2-character tables and random strings)",
         "the BIP-380 reference algorithm in ChecksumModel.v (bip380_*) is a transcription of the BIP's Python",
